@@ -69,6 +69,8 @@ def boundary_lists(rnd):
     for n in [0, 255, 256]:
         for m in [0, 1, 255]:
             out.append([ct.mkfile("ONE", ct.content(rnd, "ramp", n)), ct.mkfile("TWO", ct.content(rnd, "3c", m), 0, 255, 0x553C, 0x3C00), ct.mkfile("THREE", ct.content(rnd, "rand", 300), 1, 0)])
+    for n in [0, 1, 255, 256, 600]:                     # files that came from a tape recorded with gaps carry the gap flag $FF
+        out.append([ct.mkfile("G%d" % n, ct.content(rnd, "ramp", n), 2, 0, 0x0E00, 0x0E10, gap=255), ct.mkfile("H%d" % n, ct.content(rnd, "rand", 300), rnd.choice([0, 1]), 255, gap=rnd.choice([0, 255]))])
     addrs = [0, 1, 0x7F, 0x80, 0xFF, 0x100, 0x101, 0xFFF, 0x1000, 0x7FFF, 0x8000, 0xFF00, 0xFFFF, 0x0A0D, 0x2000]
     for i, a in enumerate(addrs):                      # all 16-bit load / entry addresses: every byte boundary, both positions
         b = addrs[(i * 7 + 3) % len(addrs)]
